@@ -63,6 +63,22 @@ def sdp_all(ctx):
     if iu is not None:
         s = norm(iu)
         R.check('DataElement.UUID' in s and 'DataElement.SEQUENCE' in s and 'is_uuid_in_value(uuid, element)' in s.replace('ServiceAttribute.', ''), rule, 'bumble.sdp.ServiceAttribute.is_uuid_in_value', 'compares UUID elements and recurses into sequences', 'UUID containment test changed', p.loc(iu))
+        # the leaf comparison is UUID equality (by 128-bit value, whatever width each side was written in), not a comparison of raw forms
+        leaf = [n for n in ast.walk(iu) if isinstance(n, ast.Compare) and len(n.ops) == 1 and isinstance(n.ops[0], (ast.Eq, ast.NotEq)) and not any('.type' in norm(x) for x in [n.left, n.comparators[0]])]
+        sides = [sorted([norm(n.left), norm(n.comparators[0])]) for n in leaf]
+        R.check(sides == [['uuid', 'value.value']], rule, 'bumble.sdp.ServiceAttribute.is_uuid_in_value | leaf comparison', 'UUID element compared with the pattern UUID by UUID equality (width-independent)',
+                f'the UUID leaf comparison is {sides}: a record holding a UUID in 16-bit form no longer matches the same UUID given in 32- or 128-bit form (and vice versa)', p.loc(iu))
+    raw = []
+    for mod in ('bumble.sdp', 'bumble.gatt', 'bumble.gatt_client', 'bumble.gatt_server', 'bumble.avdtp', 'bumble.rfcomm'):
+        m = p.modules.get(mod)
+        for n in (ast.walk(m.tree) if m else []):
+            if isinstance(n, ast.Compare) and any(isinstance(x, ast.Attribute) and x.attr in ('uuid_bytes', 'uuid_128_bytes') for side in [n.left] + n.comparators for x in [side]):
+                raw.append((mod, n))
+    ctl = ast.parse('a.value.uuid_bytes == b.uuid_bytes', mode='eval').body
+    R.check(not raw and isinstance(ctl.left, ast.Attribute) and ctl.left.attr == 'uuid_bytes', rule, 'protocol modules | no raw UUID comparison', 'no protocol module compares the raw byte form of UUIDs (positive control matched)',
+            f'raw UUID byte forms are compared in {sorted({m for m, _ in raw})}: UUIDs of different widths that denote the same value do not match', f'{raw[0][0]}:{raw[0][1].lineno}' if raw else '')
+    if iu is not None:
+        pass
 
 
 def sdp_client_state(ctx):
@@ -482,6 +498,25 @@ def stream_fsm(ctx):
             and any(isinstance(s_, ast.Return) and s_.value is not None and 'BAD_STATE' in norm(s_.value) for s_ in first.body)
         R.check(got == want and refusal_ok, rule, f'bumble.avdtp.Stream.{name}', f'refused with BAD_STATE unless state in {sorted(want)}, before any effect; refusal changes nothing',
                 f'{name} accepts the command in states {sorted(got) if got else "?"} (required: {sorted(want)}) or its refusal path has effects', p.loc(m))
+    # whatever the reason for a refusal (wrong state, missing transport channel, the local endpoint's verdict), a handler
+    # that returns a reject has not changed the stream state on that path
+    class Ref(paths.Domain):
+        def __init__(self):
+            self.bad = []
+
+        def event(self, node, v):
+            if isinstance(node, ast.Call) and dotted(node.func) == 'self.change_state':
+                return (True,)
+            if isinstance(node, ast.Return) and v and node.value is not None and norm(node.value) != 'None':
+                self.bad.append((node.lineno, norm(node.value)[:60]))
+            return (v,)
+    for name, m in sorted(st.methods.items()):
+        if not (name.startswith('on_') and name.endswith('_command')):
+            continue
+        d = Ref()
+        paths.run(m, d, False)
+        R.check(not d.bad, rule, f'bumble.avdtp.Stream.{name} | a refusal changes nothing', 'no path changes the stream state and then returns a reject (or the endpoint\'s verdict, which may be one)',
+                f'a path changes the stream state and then returns `{d.bad[0][1] if d.bad else ""}` (possibly a reject): the command is refused but the acceptor is already in the new state, the two ends disagree and later legal commands get BAD_STATE', p.loc(m))
     # a second Set Configuration for an endpoint in use is refused before a new stream replaces the live one
     psc = p.find('bumble.avdtp.Protocol.on_set_configuration_command')
     if psc is None:
